@@ -74,6 +74,7 @@ func init() {
 		"fmt.Sprint":                                   fmtSprint,
 		"errors.Is":                                    errorsIs,
 		"errors.Unwrap":                                errorsUnwrap,
+		"errors.As":                                    errorsAs,
 		"(*sync.Once).Do":                              onceDo,
 		"(*sync.Mutex).Lock":                           syncNop("lock"),
 		"(*sync.Mutex).Unlock":                         syncNop("unlock"),
@@ -984,6 +985,45 @@ func errorsIs(x *Exec, fn *ssa.Function, a []Value) Value {
 	return Or(ors...)
 }
 
+// errorsAs: the first error of the chain whose dynamic type is assignable to *target is stored there.
+func errorsAs(x *Exec, fn *ssa.Function, a []Value) Value {
+	err, tv := a[0].(IfaceV), a[1].(IfaceV)
+	if tv.T == nil {
+		x.obligation(tFalse, "errors.As: target cannot be nil")
+	}
+	pt, ok := tv.T.Underlying().(*types.Pointer)
+	tp, isPtr := tv.V.(Ptr)
+	if !ok || !isPtr || tp.Obj == nil {
+		x.obligation(tFalse, "errors.As: target must be a non-nil pointer")
+	}
+	elem := pt.Elem()
+	iface, isIface := elem.Underlying().(*types.Interface)
+	cur := err
+	for n := 0; n < 32 && cur.T != nil; n++ {
+		if ms := x.P.Prog.MethodSets.MethodSet(cur.T); ms != nil {
+			for i := 0; i < ms.Len(); i++ {
+				if ms.At(i).Obj().Name() == "As" {
+					panic(unsupported("custom As method on " + cur.T.String()))
+				}
+			}
+		}
+		if isIface && types.Implements(cur.T, iface) {
+			x.store(tp, IfaceV{T: cur.T, V: cur.V})
+			return tTrue
+		}
+		if !isIface && types.Identical(cur.T, elem) {
+			x.store(tp, cur.V)
+			return tTrue
+		}
+		nx, ok := x.unwrapErr(cur)
+		if !ok {
+			break
+		}
+		cur = nx
+	}
+	return tFalse
+}
+
 func errorsUnwrap(x *Exec, fn *ssa.Function, a []Value) Value {
 	w, _ := x.unwrapErr(a[0].(IfaceV))
 	return w
@@ -1762,6 +1802,37 @@ func init() {
 		}
 		as := toAtoms(a[0])
 		sa := atomsOfString(sep)
+		if len(as) == 1 && as[0].K == APre && simpleAtoms(as[0].Sub) && len(sa) == 1 && sa[0].K == ASep {
+			// occurrences of one whitespace rune in an arbitrary pre-image of a normal form: every such
+			// rune normalises to one separator of the normal form, so the count is any value up to the
+			// number of those separators, and the counts of different runes add up to at most that number
+			img := norm.NFKD.String(sep)
+			S := 0
+			for _, at := range as[0].Sub {
+				if at.K == ASep && at.S == img {
+					S++
+				}
+			}
+			key := as[0].S + "\x00" + img
+			if x.preCounts == nil {
+				x.preCounts = map[string]map[string]*Term{}
+			}
+			if x.preCounts[key] == nil {
+				x.preCounts[key] = map[string]*Term{}
+			}
+			if c, ok := x.preCounts[key][sep]; ok {
+				return c
+			}
+			c := x.fresh("precount", 64)
+			sum := c
+			for _, o := range x.preCounts[key] {
+				sum = Add(sum, o)
+			}
+			x.preCounts[key][sep] = c
+			x.addPC(Ule(c, BVi(int64(S), 64)))
+			x.addPC(Ule(sum, BVi(int64(S), 64)))
+			return c
+		}
 		if !simpleAtoms(as) || len(sa) != 1 || sa[0].K != ASep {
 			panic(unsupported("strings.Count on opaque text or of a non-whitespace pattern"))
 		}
